@@ -1,28 +1,29 @@
 #!/bin/bash
 # tools/try_mutant.sh <seeded dir> <check id> [tier]
 # Runs one check against a seeded change WITHOUT touching /repo: the change is applied to a scratch
-# worktree of /repo's HEAD (/tmp/mut/repo) and a copy of the engine pointing at it is built in its own
-# target dir; evidence/replays of that run go to /tmp/mut/out. (The registered checks themselves always
+# worktree of /repo's HEAD ($MUT/repo) and a copy of the engine pointing at it is built in its own
+# target dir; evidence/replays of that run go to $MUT/out. (The registered checks themselves always
 # build from /repo; `tools/try_mutant_inplace.sh` applies a change to /repo itself.)
+MUT="${MUT_DIR:-/tmp/mut}"
 D="$(realpath "$1")"; ID="$2"; TIER="${3:-quick}"
 P="$D/patch.diff"; [ -f "$D/patch.rebased.diff" ] && P="$D/patch.rebased.diff"
-mkdir -p /tmp/mut/out
-if [ ! -d /tmp/mut/repo ]; then git -C /repo worktree add -q --detach /tmp/mut/repo HEAD || exit 3; fi
-git -C /tmp/mut/repo checkout -q -f --detach "$(git -C /repo rev-parse HEAD)" && git -C /tmp/mut/repo clean -q -fd -e target
-if ! git -C /tmp/mut/repo apply "$P" 2>/tmp/mut/apply.err; then
+mkdir -p $MUT/out
+if [ ! -d $MUT/repo ]; then git -C /repo worktree add -q --detach $MUT/repo HEAD || exit 3; fi
+git -C $MUT/repo checkout -q -f --detach "$(git -C /repo rev-parse HEAD)" && git -C $MUT/repo clean -q -fd -e target
+if ! git -C $MUT/repo apply "$P" 2>$MUT/apply.err; then
   # the change was written against the pinned commit; later fix:/hook commits moved its context: 3-way merge it
-  if git -C /tmp/mut/repo apply --3way "$P" 2>>/tmp/mut/apply.err && ! git -C /tmp/mut/repo diff --name-only --diff-filter=U | grep -q .; then
-    git -C /tmp/mut/repo diff HEAD > "$D/patch.rebased.diff"; git -C /tmp/mut/repo reset -q
+  if git -C $MUT/repo apply --3way "$P" 2>>$MUT/apply.err && ! git -C $MUT/repo diff --name-only --diff-filter=U | grep -q .; then
+    git -C $MUT/repo diff HEAD > "$D/patch.rebased.diff"; git -C $MUT/repo reset -q
   else
-    echo "$(basename $D) APPLY-FAILED: $(head -2 /tmp/mut/apply.err | tr '\n' ' ')"; git -C /tmp/mut/repo reset -q --hard; exit 3
+    echo "$(basename $D) APPLY-FAILED: $(head -2 $MUT/apply.err | tr '\n' ' ')"; git -C $MUT/repo reset -q --hard; exit 3
   fi
 fi
-rm -rf /tmp/mut/engine && mkdir -p /tmp/mut/engine && cp -r /verif/engine/. /tmp/mut/engine/ && rm -rf /tmp/mut/engine/target
-sed -i 's|path = "/repo/fpdec-core"|path = "/tmp/mut/repo/fpdec-core"|; s|path = "/repo"|path = "/tmp/mut/repo"|' /tmp/mut/engine/fpmc/Cargo.toml /tmp/mut/engine/c20drv/Cargo.toml
+rm -rf $MUT/engine && mkdir -p $MUT/engine && cp -r /verif/engine/. $MUT/engine/ && rm -rf $MUT/engine/target
+sed -i "s|path = \"/repo/fpdec-core\"|path = \"$MUT/repo/fpdec-core\"|; s|path = \"/repo\"|path = \"$MUT/repo\"|" $MUT/engine/fpmc/Cargo.toml $MUT/engine/c20drv/Cargo.toml
 
-( cd /tmp/mut/engine && CARGO_NET_OFFLINE=true CARGO_TARGET_DIR=/tmp/mut/target RUSTFLAGS="--cfg fpdec_verif" cargo build --release --offline ) >/tmp/mut/build.log 2>&1 || { echo "$(basename $D) BUILD-FAILED"; tail -5 /tmp/mut/build.log; exit 2; }
-out=$(VERIF_REPO=/tmp/mut/repo VERIF_ENGINE=/tmp/mut/engine VERIF_OUT=/tmp/mut/out /tmp/mut/target/release/fpmc "$ID" "$TIER" 2>&1); rc=$?
-git -C /tmp/mut/repo checkout -q -f -- .
+( cd $MUT/engine && CARGO_NET_OFFLINE=true CARGO_TARGET_DIR=$MUT/target RUSTFLAGS="--cfg fpdec_verif" cargo build --release --offline ) >$MUT/build.log 2>&1 || { echo "$(basename $D) BUILD-FAILED"; tail -5 $MUT/build.log; exit 2; }
+out=$(VERIF_REPO=$MUT/repo VERIF_ENGINE=$MUT/engine VERIF_OUT=$MUT/out $MUT/target/release/fpmc "$ID" "$TIER" 2>&1); rc=$?
+git -C $MUT/repo checkout -q -f -- .
 nvio=$(echo "$out" | grep -c '^VIOLATION')
 echo "$(basename $D) check=$ID tier=$TIER exit=$rc violation_lines=$nvio"
 echo "$out" | grep -A2 '^VIOLATION' | head -9
